@@ -456,7 +456,8 @@ class OpsMixin(object):
                 v = self.call(base.default_factory, [], {}, node)      # collections.defaultdict.__missing__
                 base.items[k] = (idx, v)
                 return v
-            if isinstance(idx, (Const, Num)) and all(isinstance(kk, (Const, Num)) for kk, _ in base.items.values()):
+            from .symeval_ext import concrete_key
+            if concrete_key(idx) and all(concrete_key(kk) for kk, _ in base.items.values()):
                 raise RaiseSignal(ExcV(ExtV("builtins.KeyError"), [idx]), node)
             self.err(node, "symbolic key into concrete dict")
         if isinstance(base, SeqV):
